@@ -26,7 +26,7 @@ func init() {
 			"(bounds) the Go compiler's own list of bounds checks it could not prove (go build -gcflags=-d=ssa/check_bce) is mapped onto the index/slice expressions of the source; every such site in scope must be discharged by a dominating guard in canonical form or by a named exception with its reason; " +
 			"(nil-embedded) every dereference of the embedded *Request/*Response of a Message is dominated by a nil test or the message was built in the same function; " +
 			"(make) every make with a non-constant size in scope has a provably non-negative size at every call site; (nil-map) every map written through a field is initialised by the type's constructor or under a nil test; " +
-			"(assert, panic, div) no unchecked type assertion, explicit panic or unguarded big.Int division in scope; (reply-id) every return of Server.Handle yields the message carrying the request's id and a non-nil response, and handleRequest always writes it; (no-block-under-lock) as C10. Round 2: (make) sizes are bounded by lengths/constants or capped on the way, per call site.",
+			"(assert, panic, div) no unchecked type assertion, explicit panic or unguarded big.Int division in scope; (reply-id) every return of Server.Handle yields the message carrying the request's id and a non-nil response, and handleRequest always writes it; (no-block-under-lock) as C10. Round 2: (make) sizes are bounded by lengths/constants or capped on the way, per call site. Round 5: the Account bounds exception checks its premise; (map-write-exclusive); (nil-service).",
 		NotDecided: []string{"not decided: panics inside third-party libraries on hostile input (encoding/json, gob, go-ethereum crypto are trusted), unbounded resource use, liveness in general"},
 	}
 }
@@ -113,6 +113,28 @@ func networkScope(p *an.Prog) map[*ssa.Function]bool {
 		}
 	}
 	return p.Reach(roots...)
+}
+
+// boundsPremiseHolds: a named exception whose reason rests on a property of other code applies only while that code
+// still has the property. PaymentService.Account slices node ids taken from the account store, which is safe because
+// AddAccountNode links registered nodes only: both drivers must answer an id they do not hold with ErrUnregisteredNode,
+// decided by a miss in the node space, on every path.
+func boundsPremiseHolds(p *an.Prog, name string) bool {
+	if an.NormRecv(name) != "(payment.PaymentService).Account" {
+		return true
+	}
+	n := 0
+	for _, d := range p.Implementations(p.Iface("pool/store", "Store")) {
+		m := p.MethodOf(d, "AddAccountNode")
+		if m == nil || driverKind(d) == "" {
+			continue
+		}
+		n++
+		if !unregisteredByNodeMiss(p, d, m) || len(successWithoutNodeRead(p, d, m)) > 0 {
+			return false
+		}
+	}
+	return n >= 2
 }
 
 func boundsExceptionFor(name string) (struct {
@@ -339,7 +361,7 @@ func runC15(p *an.Prog, r *an.Run, tier string) {
 				r.Ok("bounds", key, e.Pos(), "guard: "+how)
 				continue
 			}
-			if ex, ok := boundsExceptionFor(name); ok {
+			if ex, ok := boundsExceptionFor(name); ok && boundsPremiseHolds(p, name) {
 				used[name]++
 				if used[name] <= ex.max {
 					r.Ok("bounds", key, e.Pos(), "named exception: "+ex.reason)
@@ -1061,6 +1083,98 @@ func checkNilMaps(p *an.Prog, r *an.Run, fns []*ssa.Function) {
 	}
 	r.Floor("field-map-updates", n, 8)
 	r.Check(len(bad) == 0, "nil-map", "scope", token.NoPos, "every map written through a field is initialised by its constructor or under a nil test", "%s", strings.Join(dedup(bad), "; "))
+
+	// ---- nil-service: the registry of host connections is called from goroutines the pool starts itself (whitelist and
+	// disconnect fan-out), outside any recover: a nil Service stored there kills the process at the next peer request.
+	// The connection obtained from the request context is stored only past the success edge of that lookup.
+	if conn := p.Method("pool", "VipnodePool", "connect"); conn != nil {
+		var nb []string
+		nReg := 0
+		for _, fn := range regionFuncs(p, conn) {
+			var lookups []ssa.CallInstruction
+			for _, c := range an.Calls(fn, false) {
+				if f := an.CallObj(c); f != nil && an.Ident(f.Name()) == "CtxService" {
+					lookups = append(lookups, c)
+				}
+			}
+			an.AllInstrs(fn, func(in ssa.Instruction) {
+				mu, ok := in.(*ssa.MapUpdate)
+				if !ok {
+					return
+				}
+				fv := an.FieldOf(stripLoad(mu.Map))
+				if fv == nil || an.Ident(fv.Name()) != "remoteHosts" {
+					return
+				}
+				nReg++
+				d := p.Derives(0, mu.Value)
+				for _, lk := range lookups {
+					lv, _ := lk.(ssa.Value)
+					if lv == nil || !d.HasValue(lv) {
+						continue
+					}
+					cut := an.EdgeSet(an.ErrEdges(lk).Succ)
+					if an.PathAvoiding(fn, lk.(ssa.Instruction), nil, func(x ssa.Instruction) bool { return x == in }, cut) != nil {
+						nb = append(nb, "the connection registered at "+p.Pos(in.Pos())+" can be stored although "+callName(lk)+" at "+p.Pos(lk.Pos())+" failed (its Service result is nil then): the next whitelist or disconnect fan-out calls a nil Service in an unrecovered goroutine")
+					}
+				}
+			})
+		}
+		r.Floor("host-registrations", nReg, 1)
+		r.Check(len(nb) == 0, "nil-service", an.FuncName(conn), conn.Pos(), "a connection is registered only when the context lookup succeeded", "%s", strings.Join(dedup(nb), "; "))
+	}
+
+	// ---- map-write-exclusive: the Go runtime aborts the whole process ("fatal error: concurrent map writes", not a
+	// recoverable panic) when a map is written while another goroutine reads or writes it. A map held in a
+	// mutex-bearing struct is therefore written only with that struct's lock held for writing — an RLock admits other
+	// readers that may be deleting expired entries at the same moment.
+	{
+		var mb []string
+		nMW := 0
+		entry := p.EntryLocks()
+		sharedSet := map[*types.Named]bool{}
+		for _, t := range SharedTypes(p) {
+			sharedSet[t] = true
+		}
+		for _, fn := range p.Repo {
+			if p.IsTestFunc(fn) || isTestDoublePkg(fn) || strings.HasSuffix(p.File(fn.Pos()), "testsuite.go") {
+				continue
+			}
+			var li *an.LockInfo
+			for _, w := range writesOf(fn) {
+				if w.Kind != "mapupdate" && w.Kind != "delete" && w.Kind != "clear" {
+					continue
+				}
+				owned := false
+				for _, f := range w.Fields {
+					if t := structOfFieldAccess(f); t != nil && sharedSet[t] {
+						owned = true
+					}
+				}
+				if !owned {
+					continue
+				}
+				nMW++
+				if li == nil {
+					li = an.Locksets(fn, entry[fn])
+				}
+				h := li.Before[w.In]
+				wr, rd := false, false
+				for _, isW := range h {
+					if isW {
+						wr = true
+					} else {
+						rd = true
+					}
+				}
+				if !wr && rd {
+					mb = append(mb, w.Kind+" on "+w.Path+" in "+an.FuncName(fn)+" at "+p.Pos(w.In.Pos())+" with only a read lock held: two requests inside this section at once abort the process with \"concurrent map writes\"")
+				}
+			}
+		}
+		r.Floor("locked-map-writes", nMW, 10)
+		r.Check(len(mb) == 0, "map-write-exclusive", "repo", token.NoPos, "no map of a mutex-bearing struct is written under a read lock", "%s", strings.Join(dedup(mb), "; "))
+	}
 }
 
 // onlyConstructedBy: every composite construction of the struct owning fv (in non-test code) stores a made map into fv.
